@@ -6,6 +6,7 @@ package main
 
 import (
 	"fmt"
+	"sort"
 
 	gnet "github.com/panjf2000/gnet/v2"
 	"github.com/panjf2000/gnet/v2/zzverif/vlib"
@@ -447,6 +448,96 @@ func boundary(res *vlib.Result, seed uint64, keys map[string]struct{}) int {
 	return steps
 }
 
+// boundaryDrain fills one registry to exactly / just beyond the row boundary and empties it again in a given order:
+// the per-row bookkeeping must stay exact while rows become empty (no panic, no live connection lost from lookups,
+// count 0 and an empty iteration at the end, and the registry usable afterwards).
+func boundaryDrain(res *vlib.Result, seed uint64, extra int, order string, keys map[string]struct{}) int {
+	r := vlib.NewRand(seed)
+	m := newModel()
+	steps := 0
+	failf := func(op string, f *fail) {
+		tr := m.trace
+		if len(tr) > 40 {
+			tr = tr[len(tr)-40:]
+		}
+		res.Violate(fmt.Sprintf("C14 %s boundary-drain %s %s order=%s population=65536+%d", gnet.VerifVariant, op, f.kind, order, extra), f.detail, map[string]any{"seed": seed, "tail_of_ops": tr, "live": len(m.live)})
+	}
+	p, msg := vlib.Catch(func() {
+		for i := 0; i < 65536+extra; i++ {
+			if f := m.add(3 + i); f != nil {
+				failf("add", f)
+				return
+			}
+			steps++
+		}
+		fds := append([]int(nil), m.order...)
+		switch order {
+		case "last-first":
+			for i, j := 0, len(fds)-1; i < j; i, j = i+1, j-1 {
+				fds[i], fds[j] = fds[j], fds[i]
+			}
+		case "random":
+			for i := len(fds) - 1; i > 0; i-- {
+				j := r.Intn(i + 1)
+				fds[i], fds[j] = fds[j], fds[i]
+			}
+		case "middle-out":
+			// the entries around the boundary go first
+			sort.Slice(fds, func(a, b int) bool {
+				da, db := fds[a]-3-65536, fds[b]-3-65536
+				if da < 0 {
+					da = -da
+				}
+				if db < 0 {
+					db = -db
+				}
+				return da < db
+			})
+		}
+		for i, fd := range fds {
+			if f := m.del(fd); f != nil {
+				failf("del", f)
+				return
+			}
+			steps++
+			left := len(fds) - 1 - i
+			// the survivors stay reachable: all of them while few are left, a sample otherwise
+			if left <= 40 || i%4099 == 0 || (left >= 65530 && left <= 65540) {
+				var f *fail
+				if left <= 40 {
+					f = m.lookups()
+				} else {
+					for k := 0; k < 12 && f == nil; k++ {
+						f = m.checkFd(fds[i+1+r.Intn(left)])
+					}
+				}
+				if f != nil {
+					failf("lookup-survivor", f)
+					return
+				}
+			}
+		}
+		if f := m.full(); f != nil {
+			failf("empty", f)
+			return
+		}
+		for i := 0; i < 5; i++ {
+			if f := m.add(900000 + i); f != nil {
+				failf("add-after-drain", f)
+				return
+			}
+		}
+		if f := m.full(); f != nil {
+			failf("after-drain", f)
+		}
+	})
+	if p {
+		res.Violate(fmt.Sprintf("C14 %s boundary-drain panic order=%s population=65536+%d", gnet.VerifVariant, order, extra), msg, map[string]any{"seed": seed, "live": len(m.live)})
+	}
+	keys[fmt.Sprintf("%s|boundary-drain|%s|+%d", gnet.VerifVariant, order, extra)] = struct{}{}
+	return steps
+}
+
 func main() {
 	res := vlib.Start("reg")
 	res.Obs("variant_"+gnet.VerifVariant, 1)
@@ -467,6 +558,22 @@ func main() {
 	}
 	for i := 0; i < nb && res.NViolations() < 50; i++ {
 		total += boundary(res, res.Seed*31+uint64(i), keys)
+	}
+	drains := []struct {
+		extra int
+		order string
+	}{{0, "first-last"}, {1, "last-first"}, {5, "random"}, {2, "middle-out"}}
+	if res.Thorough() {
+		drains = append(drains, []struct {
+			extra int
+			order string
+		}{{0, "random"}, {1, "first-last"}, {65536, "random"}, {3, "last-first"}, {70000, "middle-out"}}...)
+	}
+	for i, d := range drains {
+		if res.NViolations() >= 50 {
+			break
+		}
+		total += boundaryDrain(res, res.Seed*37+uint64(i), d.extra, d.order, keys)
 	}
 	for k := range keys {
 		res.Distinct(k)
